@@ -14,7 +14,7 @@ import c05  # noqa: E402
 
 from openjd.model import (  # noqa: E402
     DecodeValidationError, ParameterValue, ParameterValueType, StepDependencyGraph, StepParameterSpaceIterator, SymbolTable, create_job,
-    decode_job_template, model_to_object, preprocess_job_parameters,
+    decode_environment_template, decode_job_template, model_to_object, preprocess_job_parameters,
 )
 from openjd.model._format_strings import FormatString  # noqa: E402
 from openjd.model._format_strings._format_string import FormatStringError  # noqa: E402
@@ -29,7 +29,8 @@ def fam(e):
 class Client:
     """one user of a (possibly shared) decoded template: a value map and the objects it derived"""
 
-    def __init__(self, jt, doc, vals):
+    def __init__(self, jt, doc, vals, ets=None):
+        self.ets = ets or None
         self.jt, self.doc, self.vals = jt, doc, dict(vals)
         self.types = {p["name"]: p["type"] for p in doc.get("parameterDefinitions") or []}
         self.job = None
@@ -73,10 +74,11 @@ class Client:
         kind = op[0]
         try:
             if kind == "preprocess":
-                r = preprocess_job_parameters(job_template=self.jt, job_parameter_values=dict(self.vals), job_template_dir=Path("/t"), current_working_dir=Path("/c"))
+                r = preprocess_job_parameters(job_template=self.jt, job_parameter_values=dict(self.vals), job_template_dir=Path("/t"), current_working_dir=Path("/c"),
+                                              environment_templates=self.ets)
                 return sorted([k, v.type.value, v.value] for k, v in r.items())
             if kind == "create":
-                self.job = create_job(job_template=self.jt, job_parameter_values=self.pv())
+                self.job = create_job(job_template=self.jt, job_parameter_values=self.pv(), environment_templates=self.ets)
                 self.sps, self.its, self.seen = {}, {}, {}
                 self.job_export = repr(model_to_object(model=self.job))
                 return model_to_object(model=self.job)
@@ -231,6 +233,20 @@ class C18(core.PropBase):
             pa = [("create",), ("graph",), ("export",), ("graph",)][:rng.randint(2, 4)]
             pb = [("create",), ("graph",)]
             yield {"kind": "history", "doc": doc, "va": {"N": "5"}, "vb": {}, "pa": [list(o) for o in pa], "pb": [list(o) for o in pb]}
+        # 2c. clients that also share decoded ENVIRONMENT templates re-defining the job's parameters (merged at every
+        #     preprocess / create_job call): the environment templates are inputs too and stay as they are
+        for i in range(60 if thorough else 10):
+            ty = rng.choice(["STRING", "INT", "FLOAT", "PATH"])
+            pool = {"STRING": ["a", "b", "c", "d"], "PATH": ["a", "b", "c", "d"], "INT": [1, 2, 3, 4], "FLOAT": [1, 2.5, 3, 4]}[ty]
+            wide, mid = pool[:], rng.sample(pool, 3)
+            narrow = rng.sample(mid, 2)
+            envs = [{"specificationVersion": "environment-2023-09", "parameterDefinitions": [{"name": "P", "type": ty, "allowedValues": av}],
+                     "environment": {"name": f"E{k}", "variables": {"A": "b"}}} for k, av in enumerate([wide, mid][:rng.choice([1, 2])])]
+            doc = {"specificationVersion": "jobtemplate-2023-09", "name": "n {{RawParam.P}}", "parameterDefinitions": [{"name": "P", "type": ty, "allowedValues": narrow}],
+                   "steps": [{"name": "s", "script": {"actions": {"onRun": {"command": "c"}}}}]}
+            va, vb = {"P": str(narrow[0])}, {"P": str(rng.choice(pool))}
+            progs = [[("preprocess",), ("create",)], [("create",), ("preprocess",)], [("create",), ("create",)], [("preprocess",), ("preprocess",), ("create",)]]
+            yield {"kind": "history", "doc": doc, "envs": envs, "va": va, "vb": vb, "pa": [list(o) for o in rng.choice(progs)], "pb": [list(o) for o in rng.choice(progs)]}
         # 3. threads: the same operations from 2-8 threads on one shared template
         for i in range(6 if thorough else 2):
             doc = G.gen_job_template(rng, full=True)
@@ -272,8 +288,9 @@ class C18(core.PropBase):
             # isolated runs: each client alone on a private decoded copy
             iso = {}
             early = []
+            env_docs = case.get("envs") or []
             for who, vals, prog in (("A", case["va"], pa), ("B", case["vb"], pb)):
-                c = Client(decode_job_template(template=copy.deepcopy(doc)), doc, vals)
+                c = Client(decode_job_template(template=copy.deepcopy(doc)), doc, vals, [decode_environment_template(template=copy.deepcopy(e)) for e in env_docs])
                 iso[who] = [c.run(o) for o in prog]
                 for pr in c.problems:
                     early.append([who, pr])
@@ -288,8 +305,10 @@ class C18(core.PropBase):
             for sched in interleavings(pa, pb):
                 n += 1
                 jt = decode_job_template(template=copy.deepcopy(doc))
+                ets = [decode_environment_template(template=copy.deepcopy(e)) for e in env_docs]
                 before = repr(model_to_object(model=jt))
-                cl = {"A": Client(jt, doc, case["va"]), "B": Client(jt, doc, case["vb"])}
+                before_envs = [repr(model_to_object(model=e)) for e in ets]
+                cl = {"A": Client(jt, doc, case["va"], ets), "B": Client(jt, doc, case["vb"], ets)}
                 got = {"A": [], "B": []}
                 for who, o in sched:
                     got[who].append(cl[who].run(o))
@@ -297,6 +316,8 @@ class C18(core.PropBase):
                     bad.append(["".join(w for w, _ in sched), "results differ from isolated runs"])
                 if repr(model_to_object(model=jt)) != before:
                     bad.append(["".join(w for w, _ in sched), "template changed"])
+                if [repr(model_to_object(model=e)) for e in ets] != before_envs:
+                    bad.append(["".join(w for w, _ in sched), "environment template changed"])
                 for w in ("A", "B"):
                     for pr in cl[w].problems:
                         bad.append(["".join(x for x, _ in sched), w + ": " + pr])
